@@ -130,7 +130,9 @@ var c18rNames = []string{
 	"deep.sub.example.com.",
 	"*.sub.example.com.",
 	"SUB.Example.COM.",
-	"other.org.",
+	// the root: as a plain entry it covers every name there is, and its
+	// canonical spelling is the one-character name a careless parser drops
+	".",
 }
 
 func c18rSame(a, b map[string]bool) bool {
@@ -152,7 +154,7 @@ func c18rSame(a, b map[string]bool) bool {
 //
 //verif:entry tier=quick,thorough paths=700000
 //verif:expect reloaded-list-is-the-in-memory-list reload-read-the-persisted-file some-covered-entry-persisted
-//verif:bound a history of 3 (quick) / 4 (thorough) API calls - Set or Remove, the last one also SetBatch or RemoveBatch (batches of two) - over 7 entries that cover one another (plain parent/child/grandchild, wildcards at two levels, a mixed-case duplicate, an unrelated name); optional whitelist entry; the real snapshot/persist code writes the file, the real loadInitial/readBlocklists/parseHostFile read it back; every file operation succeeds
+//verif:bound a history of 3 (quick) / 4 (thorough) API calls - Set or Remove, the last one also SetBatch or RemoveBatch (batches of two) - over 7 entries that cover one another (plain parent/child/grandchild, wildcards at two levels, a mixed-case duplicate, the root); optional whitelist entry; the real snapshot/persist code writes the file, the real loadInitial/readBlocklists/parseHostFile read it back; every file operation succeeds
 //verif:outside I/O failures (VerifC18_PersistConverges); other list files in the directory and remote refresh; bufio.Scanner's line splitting (lines are handed over as written); map iteration orders other than the executor's
 func VerifC18_ReloadIsExact() {
 	c18r.files, c18r.order, c18r.opened = map[string][]string{}, nil, nil
